@@ -1,6 +1,8 @@
 """Failing-input search, second part: restart / snapshot / redefinition / scaler / faults /
 determinism / finite differences / reference comparison (C06, C07, C13, C17, C20, C14, C16, C12)."""
 import copy
+import os
+import sys
 import numpy as np
 
 from harness import gen
@@ -262,14 +264,71 @@ class Boom(Exception):
 
 EXCS = {"Boom": Boom, "TypeError": TypeError, "IndexError": IndexError, "ValueError": ValueError,
         "AssertionError": AssertionError, "ZeroDivisionError": ZeroDivisionError, "FloatingPointError": FloatingPointError,
-        "KeyError": KeyError}
+        "KeyError": KeyError, "StopIteration": StopIteration, "RuntimeError": RuntimeError, "ArithmeticError": ArithmeticError,
+        "LookupError": LookupError, "AttributeError": AttributeError, "OverflowError": OverflowError,
+        "NotImplementedError": NotImplementedError, "OSError": OSError, "RecursionError": RecursionError,
+        "LinAlgError": np.linalg.LinAlgError, "Exception": Exception}
+
+
+def source_exception_classes():
+    """Exception classes named in any `except` clause of the package as it is now (so that a handler added around
+    a user callable is probed with exactly the class it catches), resolved among builtins / numpy."""
+    import ast
+    import builtins
+    from harness.common import REPO
+
+    names = set()
+    pkg = os.path.join(REPO, "lbfgsb")
+    for fn in os.listdir(pkg):
+        if not fn.endswith(".py"):
+            continue
+        try:
+            tree = ast.parse(open(os.path.join(pkg, fn)).read())
+        except SyntaxError:
+            continue
+        for node in ast.walk(tree):
+            if isinstance(node, ast.ExceptHandler):
+                if node.type is None:
+                    names.add("Exception")
+                else:
+                    for sub in ast.walk(node.type):
+                        if isinstance(sub, ast.Name):
+                            names.add(sub.id)
+                        elif isinstance(sub, ast.Attribute):
+                            names.add(sub.attr)
+    out = []
+    for n in sorted(names):
+        cls = getattr(builtins, n, None) or getattr(np.linalg, n, None) or getattr(np, n, None)
+        if isinstance(cls, type) and issubclass(cls, BaseException) and issubclass(cls, Exception):
+            EXCS.setdefault(n, cls)
+            out.append(n)
+    return out
+
+
+def global_state():
+    """Process-wide state a run must leave as it found it."""
+    import warnings
+    import logging
+    import random
+    import decimal
+    import hashlib
+
+    def h(o):
+        return hashlib.sha1(repr(o).encode()).hexdigest()[:12]
+    return dict(np_err=repr(sorted(np.geterr().items())), np_errcall=repr(np.geterrcall()), warn_filters=h(warnings.filters),
+                log_root=(logging.getLogger().level, len(logging.getLogger().handlers), logging.root.manager.disable),
+                printopts=h(sorted(np.get_printoptions().items(), key=str)), cwd=os.getcwd(), environ=h(sorted(os.environ.items())),
+                reclimit=sys.getrecursionlimit(), py_random=h(random.getstate()), np_random=h(np.random.get_state()),
+                decimal=repr(decimal.getcontext()), trace=repr(sys.gettrace()))
 
 
 def gen_C20(tier, rng):
     N = 40 if tier == "quick" else 400
+    src = source_exception_classes()
+    base = [k for k in EXCS if k not in src]
     for i in range(N):
         yield dict(spec=_spec(rng, SMOOTH, nmax=5), maxiter=int(rng.integers(1, 7)), maxcor=int(rng.integers(1, 5)),
-                   excs=[str(v) for v in rng.choice(list(EXCS), size=3, replace=False)])
+                   excs=src + [str(v) for v in rng.choice(base, size=3, replace=False)])
 
 
 def _c20_run(P, case, fail_kind=None, fail_at=None, exc=Boom):
@@ -325,6 +384,8 @@ def _c20_run(P, case, fail_kind=None, fail_at=None, exc=Boom):
 
 def eval_C20(case):
     P = gen.make_problem(case["spec"])
+    source_exception_classes()
+    g0 = global_state()
     st, r0, c0, _, _ = _c20_run(P, case)
     if st != "ok":
         return _out(f"fault-free run raised {r0!r}", signature="C20 fault-free raise")
@@ -341,6 +402,11 @@ def eval_C20(case):
                     fail = f"{en} raised by the {kind!r} callable at call {i} surfaced as a different exception {type(e).__name__}: {e}"
                 elif after:
                     fail = f"{after} user calls were made after the {kind!r} callable raised at call {i}"
+                else:
+                    g1 = global_state()
+                    if g1 != g0:
+                        fail = (f"process-wide state left changed after the {kind!r} callable raised {en} at call {i}: "
+                                + "; ".join(f"{k}: {g0[k]} -> {g1[k]}" for k in g0 if g0[k] != g1[k])[:300])
                 if fail:
                     break
             if fail:
